@@ -45,8 +45,8 @@ CHECKS = {
          "supportedness per monitor kind is a predicate of the specification (CanUpdate, Pastifiable, DenseOK, OnlineCtOK); any other exception class or a value from an unsupported construct is a violation", "4 C17"),
  "C19": ("TLC model checking of theorem DenseEqDiscrete (SigC = Sig at sampling instants) + trace validation of the real dense vs real discrete monitors on aligned data",
          "agreement is a theorem of the two semantics checked on all short traces; the two real monitors are compared on the same grid-aligned data for periods 1-3", "4 C19"),
- "C20": ("trace validation of explain() reports: TLC enumerates every re-assignment of unreported samples over region representatives and evaluates Sem!Sat",
-         "sufficient cause is checked exhaustively per recorded report over all region-representative re-assignments of the unreported positions (traces up to 3 samples, 2 variables)", "4 C20"),
+ "C20": ("TLC model checking of the operational model of the explainer (Explain.tla: one clause per explain_* function) - the reported positions are a sufficient cause for every formula of depth <= 2 x every short trace (ExplainMC); trace validation of explain() reports: TLC enumerates every re-assignment of unreported samples over region representatives and evaluates Sem!Sat; every report is also compared with the model",
+         "sufficient cause is checked exhaustively per recorded report over all region-representative re-assignments of the unreported positions (traces up to 5 samples, 2 variables), and at design level on the transcribed explainer, whose equality with the code (reported position sets) is measured on every run", "4 C20"),
 }
 checks = []
 for pid, (tech, text, ref) in sorted(CHECKS.items()):
